@@ -1,5 +1,6 @@
 import StepModel.GenFiles
 import StepModel.GenCxxPass
+import StepModel.GenCollect
 /-! Line-protocol driver for the scanner / exp2cxx file-set model (C17; also used by C12 for orders and text).
 
   reset                                   -> ok
@@ -14,6 +15,8 @@ import StepModel.GenCxxPass
   passes                                  -> P <schema>=<k,…>;…  |  P unmodelled
   pschema <name> / pobj T|E|S <key> <qname> <isEnum> <isSelect> <renameOf|-> <items|-> <entAttrTypes|-> <descendants|-> <supers|->
   printfile                               -> F <schema>=<suffix,…>;…  (SCHEMAprint calls predicted by Pass.printFile) | F hung | F unfinished
+  cl <entity name> <dependent 0|1>       -> ok     (a ComplexList, in the order the constructor inserts them)
+  collect                                 -> K name name …  (the `// ComplexList with supertype` lines of compstructs.cc, Collect.build) | K hung
   cxx auto | cxx <schema>=<k,k,…>;…       -> C f f …  |  C refused (identifier longer than MAX_IDENT_LEN: exit 1) | C unmodelled
 -/
 open StepModel.GenFiles StepModel.Generated.Scanner StepModel
@@ -21,7 +24,8 @@ open StepModel.GenFiles StepModel.Generated.Scanner StepModel
 structure St where
   path : String := ""
   schemas : List (String × List Decl) := []     -- textual order, decls in textual order (reversed while reading)
-  pschemas : List (String × List (Char × String × Pass.Obj)) := []   -- pass-model objects: (class T/E/S, dictionary key, object)
+  pschemas : List (String × List (Char × String × Pass.Obj)) := []
+  cls : List Collect.CL := []      -- reversed   -- pass-model objects: (class T/E/S, dictionary key, object)
 
 def hexVal (c : Char) : Option Nat :=
   if '0' ≤ c ∧ c ≤ '9' then some (c.toNat - '0'.toNat)
@@ -99,6 +103,14 @@ def handle (st : St) (line : String) : St × String :=
         ({ st with pschemas := (n, (c, key, o) :: os) :: r }, "ok")
       else (st, "bad-op")
     | _, _, _, _ => (st, "bad-op")
+  | ["cl", n, d] => match parseBool d with
+    | some d => ({ st with cls := { id := st.cls.length, name := n, dependent := d } :: st.cls }, "ok")
+    | none => (st, "bad-op")
+  | ["collect"] =>
+    let cs := st.cls.reverse
+    match Collect.build (fun a b => decide (a < b)) Generated.CxxCollect.removeScan (cs.length + 1) cs with
+    | some l => (st, "K " ++ " ".intercalate (Collect.written l))
+    | none => (st, "K hung")
   | ["printfile"] =>
     -- schemas in DICTdo order of their names, types and entities in DICTdo order of the schema's symbol table
     let textual := st.pschemas.reverse.map fun (n, os) => (n, os.reverse)
